@@ -78,7 +78,9 @@ def run_textfile_impl(case, scratch):
     snaps = []
 
     async def main(loop):
-        src = Stream.from_textfile(path, poll_interval=0.5, delimiter=case["delim"], from_end=case["from_end"],
+        # the file is given as a path or as an already opened file object (both documented)
+        target = open(path, newline="") if case.get("as_object") else path
+        src = Stream.from_textfile(target, poll_interval=0.5, delimiter=case["delim"], from_end=case["from_end"],
                                    asynchronous=True, loop=IOLoop.current())
         state = {"failed": False}
 
@@ -245,7 +247,7 @@ def gen_text_case(rng):
         i = rng.randrange(1, len(ops) - 1)
         j = rng.randrange(i, len(ops) - 1)
         ops = ops[:i] + [["stop"]] + [o for o in ops[i:j] if o[0] == "w"] + [["p"], ["start"]] + ops[j:]
-    case = {"kind": "textfile", "delim": d, "from_end": rng.random() < 0.4, "pre": pre, "ops": ops}
+    case = {"kind": "textfile", "delim": d, "from_end": rng.random() < 0.4, "pre": pre, "ops": ops, "as_object": rng.random() < 0.4}
     if rng.random() < 0.2:
         nrec = max(1, len(text.split(d)) - 1)
         case["fail_rec"] = rng.randrange(0, nrec)
